@@ -2,7 +2,7 @@ SPECIFICATION Spec
 CONSTANTS
   Confs <- OpConfs
   InitRegs <- OpRegs
-  ScopeNames = {"a", "W"}
+  ScopeNames = {"a", "W", "s1"}
   MaxScopeDepth = 1
   MaxStack = 3
   BindVals <- OpBindVals
